@@ -7,7 +7,9 @@ Mirrors
   product `T(-t) · C(c) · R⁻¹ · C(-c)`, divided by its corner entry;
 * `scipy.ndimage.affine_transform` *coordinate contract*: `out[o] = interp(in, M[:d,:d]·o + M[:d,d])`,
   `mode="constant"` (zero outside); on-grid sources are read exactly, off-grid ones are
-  interpolated (order 1 modelled exactly: `linInterp`; the spline orders are not modelled);
+  interpolated (order 1 modelled exactly: `linInterp`, `rigidLinear`, `rigidLinearArr` — partition of unity, grid points,
+  integer shifts, affine exactness and the mass / first-moment rule of translations are theorems of `Props/C06.lean`;
+  the spline orders are not modelled);
 * `NumpyFFTWBackend.rigid_transform`: centre `(n-1)/2` (geometric) or a given centre (centre of mass),
   data and mask resampled through the *same* matrix;
 * `matching_utils.rigid_transform` (coordinate version, both `use_geometric_center` branches, mask);
@@ -342,5 +344,26 @@ def rowsOfMat {α : Type} {d : Nat} (A : Mat d α) : List (List α) := List.ofFn
 
 /-- a dense array read as a total function with zero extension -/
 def fnOfArr {α : Type} [Zero α] {d : Nat} (a : Arr α) : Vec d Int → α := fun idx => a.getI (List.ofFn idx) 0
+
+/-! ## order-1 rigid transform of a whole array; mass and first moments -/
+
+/-- `rigid_transform(arr, R, translation=t, order=1)` at output voxel `o` with centre `c`: the array linearly
+interpolated (`linInterp`: `mode="constant"`, `cval=0`) at the position the homogeneous matrix assigns to `o` -/
+def rigidLinear {d : Nat} (a : Arr Rat) (rinv : Mat d Rat) (t c : Vec d Rat) (o : Vec d Rat) : Rat :=
+  linInterp a (listOfVec (affineSrc (rigidMatrix rinv (some t) (some c)) o))
+
+/-- a voxel index as a rational position -/
+def ratIdx (idx : List Nat) : List Rat := idx.map (fun (z : Nat) => ((z : Int) : Rat))
+
+/-- the whole output array (`out` has the shape of `arr`) -/
+def rigidLinearArr {d : Nat} (a : Arr Rat) (rinv : Mat d Rat) (t c : Vec d Rat) : Arr Rat :=
+  Arr.ofFn a.shape (fun idx => rigidLinear a rinv t c (vecOfList d (ratIdx idx)))
+
+/-- `Σ_x a[x]` -/
+def mass (a : Arr Rat) : Rat := (allIdx a.shape).foldl (fun acc idx => acc + a.getD idx 0) 0
+
+/-- `Σ_x x_ax · a[x]`: the first moment along axis `ax` (centre of mass times mass) -/
+def moment (a : Arr Rat) (ax : Nat) : Rat :=
+  (allIdx a.shape).foldl (fun acc idx => acc + ((idx.getD ax 0 : Nat) : Rat) * a.getD idx 0) 0
 
 end Pm.C06
